@@ -222,7 +222,7 @@ class SimOps:
             else:
                 ops.append((sp, o0_idx, i0_idx, i1_idx, i2_idx, i3_idx, *a_ctrl[o0_idx]))
 
-        self.ops = np.asarray(ops, dtype='int32')
+        self.ops = np.asarray(ops, dtype='int32').reshape(-1, 9)
 
         # create a map from fanout lines to stem lines for fork stripping
         stems = np.zeros(self.c_locs_len, dtype='int32') - 1  # default to -1: 'no fanout line'
@@ -278,7 +278,7 @@ class SimOps:
             if len(n.outs) > 0:
                 self.c_locs[self.ppi_offset + i], self.c_caps[self.ppi_offset + i] = h.alloc(c_caps_min), c_caps_min
                 ref_count[self.ppi_offset + i] += 1
-            if len(n.ins) > 0:
+            if len(n.ins) > 0 and n.ins[0] is not None:
                 i0_idx = stems[n.ins[0]] if stems[n.ins[0]] >= 0 else n.ins[0]
                 ref_count[i0_idx] += 1
 
@@ -314,7 +314,7 @@ class SimOps:
 
         # copy memory location to PO/PPO area
         for i, n in enumerate(circuit.s_nodes):
-            if len(n.ins) > 0:
+            if len(n.ins) > 0 and n.ins[0] is not None:
                 self.c_locs[self.ppo_offset + i], self.c_caps[self.ppo_offset + i] = self.c_locs[n.ins[0]], self.c_caps[n.ins[0]]
 
         self.c_len = h.max_size
